@@ -119,6 +119,11 @@ class Analysis:
         if isinstance(n, ast.Attribute):
             return OWNED if (isinstance(n.value, ast.Name) and n.value.id == "self") else VIEW
         if isinstance(n, ast.JoinedStr):
+            for v in n.values:                        # what an f-string evaluates is evaluated (calls may keep things)
+                if isinstance(v, ast.FormattedValue):
+                    self.E(v.value, env)
+                    if v.format_spec is not None:
+                        self.E(v.format_spec, env)
             return OWNED
         return VIEW
 
@@ -167,7 +172,7 @@ class Analysis:
                 return (STORED, STORED) if f.attr == "get_by_index" else STORED
             if isinstance(recv, ast.Name) and recv.id == "self" and f.attr in self.methods:
                 return self.apply(self.methods[f.attr], "self", n, args, env)
-            if isinstance(recv, ast.Name) and recv.id in ("log", "logging"):
+            if isinstance(recv, ast.Name) and recv.id in ("log", "logging") and recv.id not in env:
                 return OWNED
             if isinstance(root, ast.Name) and root.id == "self":
                 # ANY other call on an object reached from self (self.header_table.add(...), with positional or keyword
